@@ -1,13 +1,31 @@
 (* C01 — forward and adjoint satisfy the dot-test identity. *)
-From PV Require Import Mat.
+From Coq Require Import QArith Qcanon.
+From PV Require Import MatT QcInst GaussQc Check.
 
-(* For EVERY matrix A (any ring with conjugation) and all u, v:
+(* For EVERY matrix A (any commutative ring with conjugation) and all u, v:
    <A u, v> = <u, A^H v>.  The per-configuration obligation evaluated by the
    check (B_impl = ctranspose A_impl) therefore gives the identity for all
    vectors at once. *)
 Theorem C01_adjoint_of_matrix :
   forall (S : StarRing) n (A : list (list S)) u v,
     wfM S n A -> length u = n -> length v = length A ->
-    dot S (mv S A u) v = dot S u (mvH S n A v).
-Proof. exact dot_mv_mvH. Qed.
+    dot S (mv S A u) v = dot S u (mv S (ctranspose S n A) v).
+Proof. intros. rewrite <- mvH_as_mv by auto. apply dot_mv_mvH; auto. Qed.
 Print Assumptions C01_adjoint_of_matrix.
+
+(* Converse ("equivalently, ... equals the conjugate transpose entry by
+   entry"): a map that passes the dot test against A for all u, v IS
+   multiplication by the conjugate transpose. *)
+Theorem C01_adjoint_unique :
+  forall (S : StarRing) n m (A B : list (list S)),
+    wfM S n A -> length A = m -> wfM S m B -> length B = n ->
+    (forall u v, length u = n -> length v = m -> dot S (mv S A u) v = dot S u (mv S B v)) ->
+    forall v, length v = m -> mv S B v = mv S (ctranspose S n A) v.
+Proof. exact adjoint_unique. Qed.
+Print Assumptions C01_adjoint_unique.
+
+(* non-vacuity: a concrete complex 2x2 matrix and vectors *)
+Example C01_example :
+  let i : GS := (qz 0, qz 1) in let A : list (list GS) := [[i; (qz 2, qz 0)]; [(qz 0, qz 0); (qz 1, qz 1)]] in
+  wfM GS 2 A /\ dot GS (mv GS A [i; (qz 1, qz 0)]) [(qz 1, qz 0); i] = dot GS [i; (qz 1, qz 0)] (mv GS (ctranspose GS 2 A) [(qz 1, qz 0); i]).
+Proof. split; [repeat constructor | vm_compute; reflexivity]. Qed.
